@@ -117,12 +117,15 @@ class Remote:
         self.messages: list[tuple[float, int, bytes]] = []  # (vtime of last byte, type, body)
         self.bad_framing = False
         self.msg_size = 65535
+        self.paused = False  # a remote that stops reading: exabgp's send buffer fills up
         self._task = harness.loop.create_task(self._reader())
         self.sent: list[tuple[float, bytes]] = []
 
     async def _reader(self) -> None:
         loop = self.h.loop
         while True:
+            while self.paused:
+                await asyncio.sleep(0.05)
             try:
                 data = await loop.sock_recv(self.sock, 1 << 16)
             except (ConnectionResetError, BrokenPipeError):
@@ -207,6 +210,7 @@ class Harness:
         self.loop = loop
         self.config_text = config_text
         self.config_files = config_files
+        self.small_buffers = False
         self.env = env or {}
         self.fsm_log: list[tuple[float, str, str, str]] = []
         self.wire_log: list[dict] = []
@@ -271,6 +275,10 @@ class Harness:
                 a, b = socket.socketpair()
                 a.setblocking(False)
                 b.setblocking(False)
+                if harness.small_buffers:
+                    # a transport whose send buffer fills after a few kilobytes (a slow or stuck peer is then a remote that pauses)
+                    a.setsockopt(socket.SOL_SOCKET, socket.SO_SNDBUF, 4096)
+                    b.setsockopt(socket.SOL_SOCKET, socket.SO_RCVBUF, 4096)
                 self_.io = a
                 self_.success()
                 if not self_.local:
